@@ -54,7 +54,7 @@ def check(ctx):
         if m.is_test or "/aio/http/" not in "/" + m.relpath:
             continue
         for c in [x for x in ast.walk(m.tree) if isinstance(x, ast.Call) and isinstance(x.func, ast.Attribute) and x.func.attr == "reset"
-                  and "respond" in src(x.func.value).lower()]:
+                  and ("respond" in src(x.func.value).lower() or ".reps[" in src(x.func.value))]:
             k += 1
             kws = {kw.arg for kw in c.keywords}
             ctx.check("chunkable" in kws or len(c.args) >= 2, "T5-reset-callers", c, src(c),
